@@ -16,6 +16,7 @@ import (
 	"errors"
 	"fmt"
 	"sort"
+	"strconv"
 	"strings"
 	"sync/atomic"
 	"time"
@@ -827,25 +828,50 @@ func (in *c15Inst) settle(op explore.Op) *explore.Fail {
 
 func (in *c15Inst) Outcome() string { return in.outcome }
 
+// c15Skip drops fields that are constant for the lifetime of an instance and owned by the
+// harness (the recording sender and its per-half wrappers, the never-updated RTT
+// statistics, the logger): they cannot distinguish two states.
+func c15Skip(typ, field string) bool {
+	switch field {
+	case "sender":
+		return typ == "quic.streamsMap" || typ == "quic.Stream" || typ == "quic.SendStream" || typ == "quic.ReceiveStream"
+	case "rttStats", "logger":
+		return typ == "flowcontrol.baseFlowController"
+	}
+	return false
+}
+
+func c15B(sb *strings.Builder, bs ...bool) {
+	for _, b := range bs {
+		if b {
+			sb.WriteByte('1')
+		} else {
+			sb.WriteByte('0')
+		}
+	}
+}
+
 func (in *c15Inst) Key() string {
 	var sb strings.Builder
-	sb.WriteString(canon.Dump(in.m, canon.Options{}))
-	fmt.Fprintf(&sb, "|adv=%v op=%v acc=%v dn=%v da=%v pm=%v ll=%v rf=%v ur=%v tp=%v cl=%v dead=%v", in.adv, in.opened, in.accepted, in.nDone, in.nDoneAcc, in.peerMax, in.lastLocal, in.resetFlag, in.usedReset, in.tpSeen, in.closed, in.dead)
+	sb.WriteString(canon.Dump(in.m, canon.Options{SkipField: c15Skip}))
+	fmt.Fprintf(&sb, "|adv=%v op=%v acc=%v dn=%v da=%v pm=%v ll=%v|", in.adv, in.opened, in.accepted, in.nDone, in.nDoneAcc, in.peerMax, in.lastLocal)
+	c15B(&sb, in.resetFlag, in.usedReset, in.tpSeen, in.closed, in.dead)
 	for t := 0; t < 2; t++ {
-		fmt.Fprintf(&sb, "|ls=%v bl=%v", explore.SortedKeys(c15StrKeys(in.localSet[t])), explore.SortedKeys(c15StrKeys(in.blocked[t])))
+		sb.WriteString("|ls=")
+		for n := 1; n <= in.lastLocal[t]; n++ {
+			c15B(&sb, in.localSet[t][n])
+		}
+		sb.WriteString(" bl=")
+		for n := 0; n <= in.peerMax[t]; n++ {
+			c15B(&sb, in.blocked[t][n])
+		}
 	}
 	for _, s := range in.sortedStrs() {
-		fmt.Fprintf(&sb, "|%d:%v%v%v%v%v%v%v%v%v%v%v%v%v%v", s.id, s.accepted, s.fin, s.rst, s.rstEff, s.cancR, s.readErr, s.closed, s.cancW, s.sreset, s.pendFIN, s.pendRST, s.sDone, s.rDone, s.done)
+		sb.WriteByte('|')
+		sb.WriteString(strconv.Itoa(int(s.id)))
+		sb.WriteByte(':')
+		c15B(&sb, s.accepted, s.fin, s.rst, s.rstEff, s.cancR, s.readErr, s.closed, s.cancW, s.sreset, s.pendFIN, s.pendRST, s.sDone, s.rDone, s.done)
 	}
 	return sb.String()
 }
 
-func c15StrKeys(m map[int]bool) map[string]bool {
-	r := map[string]bool{}
-	for k, v := range m {
-		if v {
-			r[fmt.Sprintf("%03d", k)] = true
-		}
-	}
-	return r
-}
